@@ -119,6 +119,10 @@ structure GR where
   code : Option Int := none
   inCycle : Bool := false
   allowSame : Bool := false      -- mode samedata: dependencies with condition = target are generated on purpose
+  hidden : List Nat := []        -- external producers (harness kind 2): their processor only parks its vertex closure and
+                                 -- the data is emitted by another thread — for the model such a data has no producer
+                                 -- (the vertex is kept as an empty vertex so that indices agree) and its emitter is the
+                                 -- environment; the parked closure is an ordinary open vertex closure (`vadd` / `vsub`)
 
 open Babylon.Anyflow.Graph
 
@@ -185,10 +189,12 @@ def graphObs (r : GR) (o : Obs) : Except String GR :=
       | none => .ok { inCycle := true, allowSame := r.allowSame }
     else .ok { inCycle := true, allowSame := r.allowSame }
   | some (.ev ["graph", "ndata", n]) => .ok { r with nData := n.toNat?.getD 0 }
-  | some (.ev ("graph" :: "vertex" :: _ :: "kind" :: _ :: "emits" :: rest)) =>
+  | some (.ev ("graph" :: "vertex" :: _ :: "kind" :: k :: "emits" :: rest)) =>
     let (es, ds) := splitAt rest "deps"
     match es.mapM String.toNat?, ds.mapM parseDep with
-    | some es, some ds => .ok { r with verts := r.verts.push { deps := ds, emits := es } }
+    | some es, some ds =>
+      if k == "2" then .ok { r with hidden := r.verts.size :: r.hidden, verts := r.verts.push { deps := [], emits := [] } }
+      else .ok { r with verts := r.verts.push { deps := ds, emits := es } }
     | _, _ => .error "bad graph vertex line"
   | some (.ev ["env", d, x]) =>
     match d.toNat?, parseOV x with
@@ -255,6 +261,7 @@ def graphObs (r : GR) (o : Obs) : Except String GR :=
       | none, _ => .ok r
       | _, none => .ok r
       | some (c, ns, f), some p =>
+        if c == 'v' && (match ns with | [v] => r.hidden.contains v | _ => false) then .ok r else
         match c, ns, f, a with
         | 'v', [v], "act", .cas _ _ _ _ _ _ _ ok _ =>
           if ok then r.ev (.activate v) s!"activation CAS of vertex {v} succeeded"
